@@ -13,6 +13,9 @@ SMOOTH = ("SH = scipy.ndimage.filters.gaussian_filter(H, sigma=sigma, order=0, m
 
 ITEMS = [
     ('the two chosen channels', 'X = data[:, channels]'),
+    ('a 1-D selection is read as one column', 'X = X.reshape((-1, 1))'),
+    ('no event to keep: the event mask is False everywhere', 'MASK = np.zeros(shape=X.shape[0], dtype=bool)'),
+    ('no event to keep: gated data = input indexed by that mask', 'GD = data[MASK]'),
     ('the histogram is taken of the two chosen channels over the given bins', 'H, XE, YE = np.histogram2d(X[:, 0], X[:, 1], bins=bins)'),
     ('x edges only re-cast', 'XE = np.array(XE, dtype=float)'),
     ('y edges only re-cast', 'YE = np.array(YE, dtype=float)'),
